@@ -12,6 +12,7 @@ from pulser._hamiltonian_data import HamiltonianData
 from pulser.channels.base_channel import States
 from emu_base.jump_lindblad_operators import get_lindblad_operators
 from emu_base.math.pchip_torch import PCHIP1D
+from emu_base import _verif
 
 
 class HamiltonianType(Enum):
@@ -324,6 +325,14 @@ class PulserData:
             )
 
             for _ in range(samples.reps):
+                if _verif.enabled():
+                    _verif.emit(
+                        "seq_yield",
+                        reps=samples.reps,
+                        bad_atoms=list(samples.trajectory.bad_atoms.values()),
+                        qubit_ids=[str(q) for q in samples.trajectory.bad_atoms.keys()],
+                        nsteps=len(self.target_times) - 1,
+                    )
                 yield SequenceData(
                     omega,
                     delta,
